@@ -215,6 +215,96 @@ type ExtFragileProfile struct{}
 func (ExtFragileProfile) GetName() string             { return ExtFragileName }
 func (ExtFragileProfile) GetClaims() psatoken.IClaims { return NewExtFragileClaims() }
 
+// ---- an extension of profile 2 with an OPTIONAL GROUP of claims embedded by
+// pointer (nil = group absent) and pointer-receiver codec methods. The
+// embedding-aware codec does not merge pointer-embedded structs, so the group
+// is simply not part of the serialisation; what matters here is that reading /
+// serialising the claims leaves the nil pointer alone. ---------------------------
+
+const ExtGroupName = "http://example.com/psa-group/1.0.0"
+
+type VendorGroup struct {
+	Model    *string `cbor:"-75500,keyasint,omitempty" json:"vendor-model,omitempty"`
+	Revision *uint16 `cbor:"-75501,keyasint,omitempty" json:"vendor-revision,omitempty"`
+}
+
+type ExtGroupClaims struct {
+	psatoken.P2Claims
+	*VendorGroup
+}
+
+func (o *ExtGroupClaims) Validate() error { return psatoken.ValidateClaims(o) }
+
+func (o *ExtGroupClaims) MarshalCBOR() ([]byte, error) { return encoding.SerializeStructToCBOR(EM, o) }
+func (o *ExtGroupClaims) UnmarshalCBOR(data []byte) error {
+	return encoding.PopulateStructFromCBOR(DM, data, o)
+}
+func (o *ExtGroupClaims) MarshalJSON() ([]byte, error) { return encoding.SerializeStructToJSON(o) }
+func (o *ExtGroupClaims) UnmarshalJSON(data []byte) error {
+	return encoding.PopulateStructFromJSON(data, o)
+}
+
+func NewExtGroupClaims() psatoken.IClaims {
+	p := eat.Profile{}
+	if err := p.Set(ExtGroupName); err != nil {
+		panic(err)
+	}
+	return &ExtGroupClaims{P2Claims: psatoken.P2Claims{Profile: &p, SwComponents: &psatoken.SwComponents[*psatoken.SwComponent]{}, CanonicalProfile: ExtGroupName}}
+}
+
+type ExtGroupProfile struct{}
+
+func (ExtGroupProfile) GetName() string             { return ExtGroupName }
+func (ExtGroupProfile) GetClaims() psatoken.IClaims { return NewExtGroupClaims() }
+
+// ---- an extension of profile 2 that reaches P2Claims through an embedded
+// struct of UNEXPORTED type (a vendor-internal base shared by several exported
+// product types): three levels, exported fields of the unexported level must be
+// (de)serialised like any other --------------------------------------------------
+
+const ExtNestedName = "http://example.com/psa-nested/1.0.0"
+
+type vendorBase struct {
+	psatoken.P2Claims
+	Vendor *string `cbor:"-75600,keyasint,omitempty" json:"x-vendor,omitempty"`
+}
+
+type ExtNestedClaims struct {
+	vendorBase
+	Product *string `cbor:"-75601,keyasint,omitempty" json:"x-product,omitempty"`
+}
+
+func (o *ExtNestedClaims) Validate() error { return psatoken.ValidateClaims(o) }
+
+// NestedFields gives access to the two extension claims.
+func (o *ExtNestedClaims) NestedFields() (vendor, product **string) { return &o.Vendor, &o.Product }
+
+func (o ExtNestedClaims) MarshalCBOR() ([]byte, error) { return encoding.SerializeStructToCBOR(EM, &o) }
+func (o *ExtNestedClaims) UnmarshalCBOR(data []byte) error {
+	return encoding.PopulateStructFromCBOR(DM, data, o)
+}
+func (o ExtNestedClaims) MarshalJSON() ([]byte, error) { return encoding.SerializeStructToJSON(&o) }
+func (o *ExtNestedClaims) UnmarshalJSON(data []byte) error {
+	return encoding.PopulateStructFromJSON(data, o)
+}
+
+func NewExtNestedClaims() psatoken.IClaims {
+	p := eat.Profile{}
+	if err := p.Set(ExtNestedName); err != nil {
+		panic(err)
+	}
+	return &ExtNestedClaims{vendorBase: vendorBase{P2Claims: psatoken.P2Claims{Profile: &p, SwComponents: &psatoken.SwComponents[*psatoken.SwComponent]{}, CanonicalProfile: ExtNestedName}}}
+}
+
+type ExtNestedProfile struct{}
+
+func (ExtNestedProfile) GetName() string             { return ExtNestedName }
+func (ExtNestedProfile) GetClaims() psatoken.IClaims { return NewExtNestedClaims() }
+
+// MixinName is the fixed name under which the two-embedded-structs layout is
+// registered for round trips.
+const MixinName = "http://example.com/psa-mixin/1.0.0"
+
 // ---- a stricter extension of profile 2 whose own rules are reported with the
 // library's "ignorable" sentinels ---------------------------------------------------
 
@@ -337,6 +427,12 @@ func Register(names ...string) error {
 			p = ExtOwnerProfile{}
 		case ExtFragileName:
 			p = ExtFragileProfile{}
+		case ExtGroupName:
+			p = ExtGroupProfile{}
+		case ExtNestedName:
+			p = ExtNestedProfile{}
+		case MixinName:
+			p = NumberedProfile{Name: MixinName, Base: 3}
 		default:
 			return errors.New("unknown extension profile " + n)
 		}
